@@ -482,7 +482,12 @@ impl<'a> Gen<'a> {
                         }
                         9 => bin("via", target, lam(&["x"], bin("*", id("x"), num(2)))),
                         10 => bin("where", target, lam(&["x"], bin(".>", id("x"), num(1)))),
-                        11 => call(id("map"), vec![target, lam(&["x"], bin("+", id("x"), num(1)))]),
+                        11 => match self.rng.below(4) {
+                            0 => call(id("map"), vec![target, lam(&["x"], cond(bin(".<", id("x"), num(3)), id("x"), bin("+", id("x"), st("!"))))]),
+                            1 => call(id("map"), vec![target, lam(&["x"], call(id("len"), vec![id(&l)]))]),
+                            2 => call(id(*self.rng.pick(&["filter", "every", "some"])), vec![target, lam(&["x"], bin(".>", call(id("len"), vec![id(&l)]), id("x")))]),
+                            _ => call(id("map"), vec![target, lam(&["x"], bin("+", id("x"), num(1)))]),
+                        },
                         12 => call(id(*self.rng.pick(&["flatten", "tail", "head", "len", "sum", "max"])), vec![target]),
                         13 => call(id("slice"), vec![target, num(0), num(1)]),
                         14 => call(id("zip"), vec![target, id(&l)]),
@@ -712,9 +717,15 @@ pub fn gen_scenario(rng: &mut Rng) -> Scenario {
     }
     // ... and about a third start with a long list and a record, the operands of in-place hazards
     if g.rng.chance(1, 3) {
-        let xs: Vec<E> = (0..g.rng.range(5, 9)).map(|_| g.small_num()).collect();
+        // now and then a list longer than any plausible small-size threshold (16, 64, 256)
+        let big = g.rng.chance(1, 5);
+        let e = if big {
+            call(id("range"), vec![num(*g.rng.pick(&[17i64, 65, 257, 300]))])
+        } else {
+            E::List((0..g.rng.range(5, 9)).map(|_| g.small_num()).collect())
+        };
         g.bound.insert("a".to_string(), Ty::List);
-        stmts.push(SStmt { stmt: Stmt::Expr(assign("a", E::List(xs))), kind: "bind-data".into() });
+        stmts.push(SStmt { stmt: Stmt::Expr(assign("a", e)), kind: "bind-data".into() });
         if g.rng.chance(1, 2) {
             g.bound.insert("s".to_string(), Ty::Str);
             stmts.push(SStmt { stmt: Stmt::Expr(assign("s", st("seed"))), kind: "bind-data".into() });
@@ -909,6 +920,14 @@ impl Model {
     }
 
     fn fail(&mut self, clause: &str, stmt: usize, detail: String) {
+        // long canonical values make unreadable reports: keep the head and the tail
+        let detail = if detail.chars().count() > 600 {
+            let head: String = detail.chars().take(400).collect();
+            let tail: String = detail.chars().rev().take(150).collect::<Vec<_>>().into_iter().rev().collect();
+            format!("{} ...[{} characters]... {}", head, detail.chars().count(), tail)
+        } else {
+            detail
+        };
         if self.violation.is_none() {
             self.violation = Some(Viol { clause: clause.to_string(), stmt, detail });
         }
